@@ -126,3 +126,21 @@ theorem C06_where_clause_header (input : DataType) (ctx : ImplContext) :
   rfl
 
 end O2o
+
+namespace O2o
+
+/-- C06-2 (one struct line): the line generated for counterpart `ty` is the same whether or not the member carries
+    instructions dedicated to other counterparts — every kind, every hint, with or without a nested parent field -/
+theorem C06_line_projection (f : Field) (ctx : ImplContext) (hint : TypeHint) (idx : Nat) (pc : Option ParentChildField) :
+    renderStructLine { f with attrs := f.attrs.project ctx.ty } ctx hint idx pc = renderStructLine f ctx hint idx pc := by
+  unfold renderStructLine
+  simp only [C06_applicable_attr, C06_child, C06_has_parent]
+
+/-- C06-2 (enum arm selection): the variant-level lookups used by `render_enum_line` are projection-invariant -/
+theorem C06_variant_lookups (v : Variant) (ty : TypePath) (k : Kind) (fl : Bool) :
+    (v.attrs.project ty).applicableAttr k fl ty = v.attrs.applicableAttr k fl ty ∧
+    (v.attrs.project ty).lit ty = v.attrs.lit ty ∧ (v.attrs.project ty).pat ty = v.attrs.pat ty ∧
+    (v.attrs.project ty).typeHint ty = v.attrs.typeHint ty :=
+  ⟨C06_applicable_attr _ _ _ _, C06_lit _ _, C06_pat _ _, C06_type_hint _ _⟩
+
+end O2o
